@@ -2,6 +2,7 @@ use crate::core::Run;
 pub mod c01;
 pub mod c03;
 pub mod c04;
+pub mod c06;
 pub mod c08;
 pub mod c09;
 pub mod c13;
@@ -11,6 +12,7 @@ pub fn dispatch(prop: &str, run: &mut Run) {
         "C01" => c01::run(run),
         "C03" => c03::run(run),
         "C04" => c04::run(run),
+        "C06" => c06::run(run),
         "C08" => c08::run(run),
         "C09" => c09::run(run),
         "C13" => c13::run(run),
